@@ -524,4 +524,121 @@ theorem finalSet_denote (ts par : Node) (wl : Bool) (p : List Text) (k : Text) (
     have : k ∉ Kids.keys (denoteL vs) := not_mem_keys_denoteL k vs (findBinding_none _ _ hf) hinh
     simp only [denote_set, AttrTree.kids, denoteI_bind, Kids.upsert_of_not_mem k _ _ this]
 
+mutual
+  theorem vIds_updSet_notin (c : Nat) (f : Node → Node) :
+      (x : Node) → c ∉ vIds x → vIds (updSet c f x) = vIds x
+    | .atom _, _ => rfl
+    | .ident _, _ => rfl
+    | .inherit _ _, _ => rfl
+    | .entry _ _ _ _, _ => rfl
+    | .set s vs o m r, h => by
+      simp only [vIds, List.mem_cons, not_or] at h
+      have hs : ¬ s = c := fun e => h.1 e.symm
+      simp only [updSet, hs, if_false, vIds, vIdsL_updSetL_notin c f vs h.2]
+    | .bind i n ne val b a, h => by
+      simp only [vIds, List.mem_cons, not_or] at h
+      simp only [updSet, vIds, vIds_updSet_notin c f val h.2]
+  theorem vIdsL_updSetL_notin (c : Nat) (f : Node → Node) :
+      (xs : List Node) → c ∉ vIdsL xs → vIdsL (updSetL c f xs) = vIdsL xs
+    | [], _ => rfl
+    | x :: xs, h => by
+      simp only [vIdsL_cons, List.mem_append, not_or] at h
+      simp only [updSetL, vIdsL_cons, vIds_updSet_notin c f x h.1, vIdsL_updSetL_notin c f xs h.2]
+end
+
+theorem isNamed_updSet (c : Nat) (f : Node → Node) (k : Text) (x : Node) (h : c ∉ vIds x) :
+    isNamed k (updSet c f x) = isNamed k x := by
+  cases x with
+  | set s vs o m r =>
+    simp only [vIds, List.mem_cons, not_or] at h
+    have hs : ¬ s = c := fun e => h.1 e.symm
+    simp [updSet, hs, isNamed, isBind]
+  | bind i n ne val b a => simp [updSet, isNamed, isBind, bindName?]
+  | _ => rfl
+
+theorem isNamed_updSetL (c : Nat) (f : Node → Node) (k : Text) (xs : List Node) (h : c ∉ vIdsL xs)
+    (hx : ∀ x ∈ xs, isNamed k x = false) : ∀ x ∈ updSetL c f xs, isNamed k x = false := by
+  induction xs with
+  | nil => simp [updSetL]
+  | cons y r ih =>
+    simp only [vIdsL_cons, List.mem_append, not_or] at h
+    intro x hm
+    simp only [updSetL, List.mem_cons] at hm
+    rcases hm with e | hm
+    · subst e; rw [isNamed_updSet c f k y h.1]; exact hx y (by simp)
+    · exact ih h.2 (fun z hz => hx z (by simp [hz])) x hm
+
+/-- walking to the mutated object finds it mutated -/
+theorem subAt_updSet (f : Node → Node) (p : List Text) : ∀ (T cur : Node) (c : Nat),
+    (vIds T).Nodup → subAt T p = some cur → cur.setSid? = some c →
+    subAt (updSet c f T) p = some (f cur) := by
+  induction p with
+  | nil =>
+    intro T cur c _ h hc
+    simp at h; subst h
+    obtain ⟨vs, o, m, r, rfl⟩ := setSid_some _ _ hc
+    simp [updSet]
+  | cons k ks ih =>
+    intro T cur c hid h hc
+    simp only [subAt] at h
+    cases hs : stepInto T k with
+    | none => simp [hs] at h
+    | some val =>
+      simp only [hs] at h
+      obtain ⟨s, o, m, r, i, ne, bf, af, pre, post, rfl, hpre⟩ := stepInto_some T k val hs
+      obtain ⟨hval, hc', _⟩ := ids_split s pre post i k ne val bf af o m r hid
+      obtain ⟨hcs, hci, hcpre, hcpost⟩ := hc' c (subAt_sid_mem ks val cur c h hc)
+      have hs' : ¬ s = c := fun e => hcs e.symm
+      simp only [updSet, hs', if_false, updSetL_append, updSetL, subAt]
+      rw [(stepInto_of_split s _ m r i k ne _ bf af _ _ (isNamed_updSetL c f k pre hcpre hpre)).2]
+      exact ih val cur c hval h hc
+
+theorem subAt_append (p q : List Text) (T : Node) :
+    subAt T (p ++ q) = (subAt T p).bind (subAt · q) := by
+  induction p generalizing T with
+  | nil => simp
+  | cons k ks ih =>
+    simp only [List.cons_append, subAt]
+    cases stepInto T k with
+    | none => simp
+    | some v => simp [ih]
+
+/-- identities after appending `nb` to the `values` of the object found at path `p` -/
+theorem vIds_updSet_app (nb : Node) (f : Node → Node) (c : Nat)
+    (hf : ∀ vs o m r, ∃ o', f (.set c vs o m r) = .set c (vs ++ [nb]) o' m r)
+    (p : List Text) : ∀ (T cur : Node), (vIds T).Nodup → subAt T p = some cur → cur.setSid? = some c →
+    (vIds (updSet c f T)).Perm (vIds T ++ vIds nb) := by
+  induction p with
+  | nil =>
+    intro T cur _ h hc
+    simp at h; subst h
+    obtain ⟨vs, o, m, r, rfl⟩ := setSid_some _ _ hc
+    obtain ⟨o', e⟩ := hf vs o m r
+    simp [updSet, e, vIds]
+  | cons k ks ih =>
+    intro T cur hid h hc
+    simp only [subAt] at h
+    cases hs : stepInto T k with
+    | none => simp [hs] at h
+    | some val =>
+      simp only [hs] at h
+      obtain ⟨s, o, m, r, i, ne, bf, af, pre, post, rfl, hpre⟩ := stepInto_some T k val hs
+      obtain ⟨hval, hc', _⟩ := ids_split s pre post i k ne val bf af o m r hid
+      obtain ⟨hcs, hci, hcpre, hcpost⟩ := hc' c (subAt_sid_mem ks val cur c h hc)
+      have hs' : ¬ s = c := fun e => hcs e.symm
+      have ihv := ih val cur hval h hc
+      simp only [updSet, hs', if_false, updSetL_append, updSetL, vIds, vIdsL_append, vIdsL_cons,
+        vIdsL_updSetL_notin c f pre hcpre, vIdsL_updSetL_notin c f post hcpost, List.cons_append]
+      refine List.Perm.cons s ?_
+      rw [List.append_assoc (vIdsL pre)]
+      refine List.Perm.append_left _ ?_
+      simp only [List.cons_append]
+      refine List.Perm.cons i ?_
+      -- V' ++ Q ~ (V ++ Q) ++ N
+      have : (vIds (updSet c f val) ++ vIdsL post).Perm ((vIds val ++ vIds nb) ++ vIdsL post) :=
+        List.Perm.append_right _ ihv
+      refine this.trans ?_
+      rw [List.append_assoc, List.append_assoc]
+      exact List.Perm.append_left _ List.perm_append_comm
+
 end Nima
